@@ -104,7 +104,12 @@ def xrefLoop (rec : Rec) (root : Node) (rs : Bool) (self : Path) :
         if chain.contains cur || tp = self then .error .eval
         else
           match n with
-          | .leaf _ (.xref next) => xrefLoop rec root rs self fuel next (chain ++ [cur]) st1
+          | .leaf f (.xref next) =>
+            -- an intermediate reference is followed without being evaluated; an unsafe one still counts
+            if !eSafe f then
+              if rs then .error .unsafeE
+              else xrefLoop rec root rs self fuel next (chain ++ [cur]) { st1 with unsafeSeen := st1.unsafeSeen + 1 }
+            else xrefLoop rec root rs self fuel next (chain ++ [cur]) st1
           | _ => rec rs n tp st1
 
 def scalarStr : Scalar → String
